@@ -881,6 +881,9 @@ func TestExec(t *testing.T) {
 		if len(s) > 0 && drv.Str(s[0]["op"]) == "Conc" && rep > 1 {
 			n = rep
 		}
+		if len(scheds) == 1 {
+			n = 4 // a single schedule is a re-execution or a replay: give the unlogged Go map orders a chance to recur
+		}
 		for k := 0; k < n; k++ {
 			r := runOne(t, tr, i, s)
 			blocked += r.blocked
